@@ -17,14 +17,20 @@ CLAIMS = {
     'C08': {
         'text': "Every rule instance is extracted from the current source and discharged or reported: the 27 "
                 "operator-table rows are compared with the class CPython's own parser assigns each symbol "
-                "(exhaustive), the finder/kind pairing and name plumbing are checked on the AST, the two "
-                "threshold functions are tabulated over a complete small model (0..4 squared) by a whitelist "
-                "abstract interpreter, ensure/prevent siblings must count by identical expressions, the Constant "
-                "split is tabulated over representative values, and the literal comparison must be type-aware.",
+                "(exhaustive). find_operation, find_function_calls, CaitNode.find_all (with a model of "
+                "ast.NodeVisitor dispatch) and StretchyTreeMatcher.shallow_match_main are executed abstractly on "
+                "model syntax trees whose derived attributes come from interpreting CaitNode.__getattr__ itself: "
+                "every operator symbol must return exactly the nodes of the class CPython assigns it (chained "
+                "comparisons once per matching operator), Bool/Num/Str must split Constants by CPython value type, "
+                "and a pattern literal must match a student literal iff type and value agree (196 pairs). The two "
+                "threshold functions are tabulated over a complete small model (0..4 squared), ensure/prevent "
+                "siblings must count by identical expressions, and reparse_if_needed is executed over call "
+                "sequences so that the tree walked is the tree of the code asked for.",
         'note': _NOTE + "Not decided: occurrence counts and reported lines for individual programs beyond what "
                         "tables, pairing and threshold logic imply.",
-        'technique': 'static analysis: table extraction vs CPython parser oracle, sibling agreement, '
-                     'finite-domain decision tables (ast only)',
+        'technique': 'static analysis: table extraction vs CPython parser oracle, abstract interpretation of the '
+                     'finders/matcher over model syntax trees, sibling agreement, finite-domain decision tables '
+                     '(ast only)',
     },
     'C19': {
         'text': "Exhaustive table check against CPython: all 109 cells of VALID_BINOP_TYPES are extracted and each "
@@ -33,8 +39,11 @@ CLAIMS = {
                 "negative bases and exponents) - a pair CPython always rejects must have no cell, and a present cell "
                 "must be a pedal Type every CPython result conforms to. The dispatch function is tabulated by a "
                 "whitelist abstract interpreter over hit/miss/Any/literal scenarios; orderable sets and "
-                "allows_membership overrides are extracted and compared with CPython's TypeError behaviour; value "
-                "typing is checked for one-shot generators, set subscripts, bool-before-int and class conformance.",
+                "allows_membership overrides are extracted and compared with CPython's TypeError behaviour, and "
+                "Tifa.visit_Compare is executed abstractly for all ten comparison operators x allowed/not allowed; "
+                "get_pedal_type_from_value is executed abstractly on scalar and container representatives in both "
+                "orders within one process (shared module state), each result having to be the pedal type of the "
+                "value's own Python type; no generator may be stored by a Type constructor.",
         'note': _NOTE + "Not decided: expression trees deeper than one operator (covered only through "
                         "compositionality of the table); element types inside containers. Three Pow cells whose "
                         "CPython result type is value-dependent are recorded as known findings.",
@@ -80,8 +89,9 @@ CLAIMS = {
                 "that evaluates to an exception is a never-raises finding that names the raising expression. The "
                 "rank table is compared with the documented order, by_priority o priority_offset is tabulated over "
                 "all categories x priorities x aliases (rank order, re-ranking, strict in-rank shifts, totality), "
-                "and every resolver is checked for a single stable key-only sort of report.feedback in creation "
-                "order, merge-all-then-finalize, and Report.add_feedback being the only appender.",
+                "and each resolver's resolve() is itself executed abstractly on small reports (pairs and triples with "
+                "ties and inversions under a symbolic rank function) and must deliver what the oracle delivers on "
+                "the stably sorted list; report.feedback may only be appended to or cleared, inside Report.",
         'note': _NOTE + "Not decided: instructor-written Feedback subclasses that break the attribute contract; "
                         "message text. Stability of list.sort is CPython's guarantee.",
         'technique': 'static analysis: finite-domain decision tables by whitelist abstract interpretation of the '
@@ -93,7 +103,8 @@ CLAIMS = {
                 "set_correct-, compliment-, give_partial-like and negative feedback with and without suppression; "
                 "the initial FinalFeedback's arguments are checked; a class table over all 170+ Feedback subclasses "
                 "in pedal shows no negative-valence or syntax/runtime/algorithmic/specification class declares "
-                "correct=True.",
+                "correct=True. The resolver drivers are executed abstractly on small reports (shared with C01) so that "
+                "a driver which skips or de-duplicates feedback is caught here as well.",
         'note': _NOTE + "Not decided: instructor-defined subclasses.",
         'technique': 'static analysis: finite-domain decision table of merge/finalize, class-attribute table over '
                      'the Feedback hierarchy (ast only)',
@@ -104,7 +115,8 @@ CLAIMS = {
                 "valence x triggered x 10 score forms x unscored x muted x suppressed (1280 cells) plus sums of "
                 "2-3 scored feedbacks, against the documented arithmetic rounded to two decimals; Score.parse is "
                 "tabulated over 12 strings; numeric scores are checked for writer/reader agreement with the pattern; "
-                "unit_test's per-case split is checked structurally.",
+                "unit_test's per-case split is checked structurally; the resolver drivers are executed abstractly on "
+                "small reports (shared with C01) so that a driver which drops a scored feedback is caught here.",
         'note': _NOTE + "Not decided: floating-point rounding of sums outside the table; Score.__str__'s integer "
                         "rounding when a total is split among unit tests.",
         'technique': 'static analysis: finite-domain decision table of the composed score pipeline, regex AST, '
@@ -135,8 +147,10 @@ CLAIMS = {
                 "subclasses checks (CFG) that every overriding __init__ reaches the base __init__ on all normal paths, "
                 "that nobody overrides _handle_condition/__bool__, and that delayed-condition groups finalise exactly "
                 "once in __exit__. Message/else/justification derivation and the format-spec dispatch are tabulated; "
-                "the formatter name table is checked against methods and suffix order; override backup/restore is "
-                "checked including the own-namespace rule for the lazily created backup dict.",
+                "the formatter name table is checked against methods and suffix order; override/_restore_overrides/"
+                "clear_overridden_feedback are executed abstractly on a model class hierarchy (base, inheriting "
+                "subclass, sibling) for seven call sequences, after which every class attribute must read as "
+                "before.",
         'note': _NOTE + "Not decided: correctness of each formatter's output text; instructor-defined subclasses.",
         'technique': 'static analysis: finite-domain decision tables by abstract interpretation, who-may-call / '
                      'who-writes sweeps, CFG must-pass-through over the Feedback class hierarchy (ast only)',
@@ -144,10 +158,12 @@ CLAIMS = {
     'C12': {
         'text': "verify() is analysed on a CFG with exception edges in which the ast.parse(code) call raises every "
                 "documented failure mode (IndentationError, other SyntaxError, ValueError, RecursionError, "
-                "MemoryError): no atom may leave verify(); syntax/indentation feedback is constructed exactly once in "
-                "the matching handler with the caught exception's own lineno/offset, never in the else-arm; success "
-                "flags, the stored tree (ast.parse of the unmodified text) and the blank test are checked by "
-                "def-use. An Optional[int] flow follows lineno/offset from the handler into syntax_error.__init__, "
+                "MemoryError): no atom may leave verify(). verify() is then executed abstractly for every parser outcome x "
+                "code given/defaulted x blank/non-blank x muted x enhance with a stub parser: exactly one "
+                "syntax-category feedback iff rejected, carrying the caught exception's own lineno/offset, the "
+                "unmodified text under the matching file name, success/return value, the stored tree and the blank "
+                "report are all compared with the property; syntax_error.__init__ is executed abstractly for lines "
+                "with and without a position and files with and without a section offset. An Optional[int] flow follows lineno/offset from the handler into syntax_error.__init__, "
                 "ExpandedTraceback.build_traceback, FakeFrame and _fix_frame_line and rejects arithmetic on a "
                 "possibly-None position; the reported line must be line + submission.line_offsets[filename].",
         'note': _NOTE + "The three non-SyntaxError failure modes of the parser escaping verify() are recorded known "
@@ -157,8 +173,9 @@ CLAIMS = {
                      'dataflow across resolved callees, def-use provenance (ast only)',
     },
     'C15': {
-        'text': "Ownership: who writes raw_output/output (class and package sweep) and that _stop_mocking hands the "
-                "popped per-execution buffer and the same context to append_output. Semantics by decision tables: "
+        'text': "Ownership: who writes raw_output/output (class and package sweep); _start_mocking/_stop_mocking are "
+                "executed abstractly with marker objects (one fresh buffer pushed and patched in as sys.stdout, its "
+                "text and the same context handed to append_output, patches stopped first). Semantics by decision tables: "
                 "append_output is executed abstractly over previous raw text x 7 new texts (empty, no trailing "
                 "newline, blank lines, whitespace only) and must give raw = previous + new, context = new, and the "
                 "line view extended by the right-stripped lines of the right-stripped text iff the new text is "
@@ -172,11 +189,12 @@ CLAIMS = {
     },
     'C17': {
         'text': "Losslessness follows from the regex AST of the section pattern (one capturing group, everything else "
-                "zero-width, line-anchored) and from separate_into_sections splitting the unmodified main code with "
-                "re.MULTILINE. next_section is executed abstractly over six file shapes (no markers, marker on the "
-                "first/last line, adjacent markers, empty file) x independent/cumulative x successive calls up to two "
-                "past the end: presented text, line offset and the not_enough_sections branch are compared with the "
-                "property. Offset discipline is a provenance rule: TIFA's locate() (and every _issue site using it), "
+                "zero-width, line-anchored) and from executing separate_into_sections -> next_section* -> "
+                "stop_sections abstractly as one session on a model submission over eight file shapes (no markers, "
+                "marker on the first/last line, adjacent markers, empty file, form feed, U+2028) x "
+                "independent/cumulative: stored parts, backup, presented text, line offset, the not_enough_sections "
+                "branch and the restored file are compared with the property. Sandbox._capture_exception is executed "
+                "abstractly with marker objects for three kinds of file name. Offset discipline is a provenance rule: TIFA's locate() (and every _issue site using it), "
                 "traceback frames, the traceback's line_number used by the sandbox, and syntax_error must add a value "
                 "derived from submission.line_offsets. Restoration: substitution push/pop pairing and agreement of all "
                 "hook registrations with execute_hooks triggers (constants resolved).",
@@ -242,9 +260,10 @@ CLAIMS = {
                 "a size bound: quick 1450 programs, thorough 24000 (<= 4 atoms, depth 2, two variables, loops "
                 "running 0/1/2 times). The reported issues are compared with an oracle that enumerates the program's "
                 "execution paths: exact Initialization / Possible Initialization / none per read and unused-variable "
-                "verdicts for branch programs, no missed uninitialised read with loops. In addition the three-valued "
-                "join table, the issue dispatch, the path discipline of the three visitors (sibling rule) and "
-                "merge_paths covering both sides are checked directly.",
+                "verdicts for branch programs, no missed uninitialised read with loops. A third sweep defines a helper function that "
+                "reads the global and calls it at several points (visit_Call/make_function closures executed "
+                "abstractly). In addition the three-valued join table, the issue dispatch, and witness programs for "
+                "the path discipline of each visitor and for merge_paths covering both sides are checked.",
         'note': _NOTE + "The abstract execution was cross-checked against the real TIFA on the deviating programs. "
                         "Known findings: visit_For opens no path (missed reads after for loops), unused not "
                         "reported when the variable is only read on a branch that never assigns it. Not decided: "
@@ -253,15 +272,15 @@ CLAIMS = {
                      'core vs a path-enumeration oracle; sibling agreement of visitors (ast only)',
     },
     'C10': {
-        'text': "The guards that make a returned mapping an embedding are located and checked where every mapping is "
-                "produced: same node class / field count / meta dominate the single AstMap construction of "
-                "shallow_match_main and the mismatch flag is sticky; handlers that build maps themselves test first; "
-                "definition names are compared or bound; primitive content is compared type-aware, the None-shortcut "
-                "does not skip Constant.value and is_primitive (tabulated by abstract interpretation over all eight "
-                "Constant value types) covers every literal type; callers pass only four reasoned ignores; map_merge "
+        'text': "The guards that make a returned mapping an embedding are decided where every mapping is produced: "
+                "shallow_match_main is executed abstractly on 200+ pairs of model nodes (all pairs of 14 literal "
+                "values, same-field-name nodes of different classes, differing identifiers, absent optional children, "
+                "ignored fields, meta mismatch) and must produce a mapping exactly for genuine shallow embeddings; "
+                "handlers that build maps themselves test first; definition names are compared or bound; callers pass "
+                "only four reasoned ignores; map_merge "
                 "accepts only strictly later siblings without conflicts; operand swapping is tabulated per operator "
                 "(only + and *); the conflict bookkeeping of AstMap is tabulated and re-detection on merge is "
-                "checked; the three placeholder regexes are enumerated over all strings up to length 6 over {_,a,b}.",
+                "checked; _name_regex is executed abstractly on all strings up to length 6 over {_,a,b}.",
         'note': _NOTE + "Not decided: that the composition of these guards over the recursive search yields an "
                         "embedding for every program/pattern pair (an inductive argument about the algorithm); "
                         "__expr__ rebinding.",
